@@ -352,11 +352,81 @@ fn rng_part(res: &mut PartResult) {
     res.sample(json!({"capacity": 2, "pushes": 8, "threads": 48, "expected": "at least two different retained sets"}));
 }
 
+/// Values that are not ordinary numbers: every f64 bit pattern pushed is a value like any other (NaN with a payload,
+/// the infinities, both zeros). Below capacity the drain yields exactly the pushed bit patterns at rate 1; above it, the
+/// configured number of them at rate capacity / pushed, for every answer of the RNG seam.
+fn nonfinite_part(res: &mut PartResult) {
+    vcore::vsched::install_hooks();
+    res.engine = "E3 non-finite and signed-zero values through push / consume / is_empty".into();
+    let mut states = vseq::States::new();
+    let nan = |p: u64| f64::from_bits(0x7ff8_0000_0000_0000 | p);
+    let streams: Vec<Vec<f64>> = vec![
+        vec![nan(1)],
+        vec![f64::INFINITY],
+        vec![1.0, nan(1), f64::INFINITY, f64::NEG_INFINITY, nan(2), -0.0, 0.0, 2.0],
+        vec![nan(1), nan(2), f64::NEG_INFINITY, 1.0],
+    ];
+    for stream in &streams {
+        for cap in [1usize, 2, 4, 8] {
+            // every answer sequence of the seam (at most 3 replacement draws here)
+            let mut stack: Vec<Vec<usize>> = vec![vec![]];
+            while let Some(prefix) = stack.pop() {
+                res.executions += 1;
+                res.transitions += stream.len() as u64 + 1;
+                RNG_SCRIPT.with(|s| *s.borrow_mut() = Some(RngScript { prefix: prefix.clone(), ..Default::default() }));
+                let r = AtomicSamplingReservoir::new(cap);
+                let mut empty_after_first = None;
+                for (i, v) in stream.iter().enumerate() {
+                    r.push(*v);
+                    if i == 0 {
+                        empty_after_first = Some(r.is_empty());
+                    }
+                }
+                let mut got: Vec<u64> = Vec::new();
+                let mut rate = -1.0;
+                r.consume(|d| {
+                    rate = d.sample_rate();
+                    got = d.map(|x| x.to_bits()).collect();
+                });
+                let sc = RNG_SCRIPT.with(|s| s.borrow_mut().take()).unwrap();
+                for i in prefix.len()..sc.uppers.len() {
+                    for alt in 1..sc.uppers[i] {
+                        let mut p = sc.answers[..i].to_vec();
+                        p.push(alt);
+                        stack.push(p);
+                    }
+                }
+                let cfg = json!({"stream": stream.iter().map(|v| format!("{:?}/{:#x}", v, v.to_bits())).collect::<Vec<_>>(), "cap": cap, "answers": sc.answers});
+                let pushed: Vec<u64> = stream.iter().map(|v| v.to_bits()).collect();
+                states.add(&(cap, stream.len(), got.len()));
+                if empty_after_first != Some(false) {
+                    res.violation("is-empty-after-push", format!("capacity {}: is_empty() is true right after {:?} was pushed", cap, stream[0]), cfg.clone());
+                }
+                let want_n = stream.len().min(cap);
+                let mut g = got.clone();
+                g.sort_unstable();
+                g.dedup();
+                if got.len() != want_n || g.len() != got.len() || got.iter().any(|b| !pushed.contains(b)) {
+                    res.violation("drain-yields-wrong-count", format!("capacity {}, pushed {:?}: the drain yielded {} value(s) {:?} (bit patterns), expected {} distinct pushed ones", cap, stream, got.len(), got.iter().map(|b| format!("{:#x}", b)).collect::<Vec<_>>(), want_n), cfg.clone());
+                }
+                let want_rate = if stream.len() <= cap { 1.0 } else { cap as f64 / stream.len() as f64 };
+                if (rate - want_rate).abs() > 1e-12 {
+                    res.violation("sample-rate-wrong", format!("capacity {}, {} pushed: sample rate {}, expected {}", cap, stream.len(), rate, want_rate), cfg.clone());
+                }
+            }
+        }
+    }
+    res.states = states.len();
+    res.distinct_outcomes = states.len();
+    res.sample(json!({"stream": "[1.0, NaN(1), +inf, -inf, NaN(2), -0.0, 0.0, 2.0]", "capacity": 8, "expected": "exactly these 8 bit patterns, rate 1"}));
+}
+
 fn parts(ctx: &Ctx) -> Vec<PartSpec> {
     if ctx.quick() {
         vec![
             PartSpec::new("e3-tree-cap0-3", json!({"caps": [0, 1, 2, 3], "extra": 3})),
             PartSpec::new("rng-per-thread", json!({"rng": true})),
+            PartSpec::new("non-finite-values", json!({"nonfinite": true})),
             PartSpec::new("e1-push-vs-consume-pb2", json!({"e1": 2, "two": false})),
             PartSpec::new("e1-2pushers-vs-consume-pb2", json!({"e1": 2, "two": true})),
             PartSpec::new("e1-push-vs-2consumers-pb2", json!({"e1": 2, "two": false, "cons2": true})),
@@ -366,6 +436,7 @@ fn parts(ctx: &Ctx) -> Vec<PartSpec> {
         vec![
             PartSpec::new("e3-tree-cap0-3", json!({"caps": [0, 1, 2, 3], "extra": 6})).budget(1500.0),
             PartSpec::new("rng-per-thread", json!({"rng": true})),
+            PartSpec::new("non-finite-values", json!({"nonfinite": true})),
             PartSpec::new("e3-tree-cap4", json!({"caps": [4], "extra": 5})).budget(1500.0),
             PartSpec::new("e3-tree-cap5", json!({"caps": [5], "extra": 5})).budget(1500.0),
             PartSpec::new("e3-tree-cap6", json!({"caps": [6], "extra": 5})).budget(1500.0),
@@ -381,7 +452,9 @@ fn parts(ctx: &Ctx) -> Vec<PartSpec> {
 
 fn run(ctx: &Ctx, spec: &PartSpec) -> PartResult {
     let mut res = PartResult::new(&spec.name, "");
-    if spec.arg["rng"].as_bool() == Some(true) {
+    if spec.arg["nonfinite"].as_bool() == Some(true) {
+        nonfinite_part(&mut res);
+    } else if spec.arg["rng"].as_bool() == Some(true) {
         rng_part(&mut res);
     } else if let Some(pb) = spec.arg["e1"].as_u64() {
         e1(ctx, &mut res, pb as usize, spec.arg["two"].as_bool().unwrap_or(false), spec.arg["cons2"].as_bool().unwrap_or(false), spec.arg["cap"].as_u64().unwrap_or(4) as usize);
@@ -396,7 +469,7 @@ fn main() {
     driver::main(CheckDef {
         prop: "C16",
         level: "model_checking",
-        rule: "E3: for every capacity in the list, every push count 0..=cap+extra in cycle 1 and {0,1,cap+1} in cycle 2, the complete tree of answers of every fastrand(upper) call (RNG seam) is enumerated on the real AtomicSamplingReservoir; every leaf is checked (yield subset/count/sample rate/fresh start) and retention probabilities are summed with exact rational weights; E1: all SC interleavings (pb-bounded) of pushes with consumes (one or two pushing threads, one or two consuming threads); distinct = distinct (configuration, yields) leaves / outcomes",
+        rule: "E3: for every capacity in the list, every push count 0..=cap+extra in cycle 1 and {0,1,cap+1} in cycle 2, the complete tree of answers of every fastrand(upper) call (RNG seam) is enumerated on the real AtomicSamplingReservoir; every leaf is checked (yield subset/count/sample rate/fresh start) and retention probabilities are summed with exact rational weights; streams of non-finite values and signed zeros (compared by bit pattern) for capacities 1-8 over every seam answer; E1: all SC interleavings (pb-bounded) of pushes with consumes (one or two pushing threads, one or two consuming threads); distinct = distinct (configuration, yields) leaves / outcomes",
         assumptions: &["the RNG is uniform over 0..upper (the seam replaces it by enumeration of all answers with weight 1/upper); the part rng-per-thread checks, outside the enumeration, that the real generator does not give every fresh thread the same answers", "E1: sequential consistency (the reservoir uses Relaxed orderings; weak-memory effects are not explored)"],
         parts,
         run,
